@@ -268,12 +268,16 @@ func (ex *Ex) callByContract(fr *Frame, st *State, ins ssa.Instruction, callee *
 	// havoc assigns
 	ex.havocAssigns(cf, st, ctr, args)
 	// ghost level state written by the callee
-	for _, gname := range []string{"$cap", "$dom"} {
+	for _, gname := range []string{"$cap", "$dom", "$out"} {
 		for _, en := range ctr.Ensures {
 			ids := map[string]bool{}
 			exprIdents(en.E, ids)
 			if ids[gname] {
-				st.ghost[gname] = SV{T: ex.FreshVar("g"+gname, SInt), Ty: tInt}
+				if cur, ok := st.ghost[gname]; ok && gname == "$out" {
+					st.ghost[gname] = SV{T: ex.FreshVar("gout", SString), Ty: cur.Ty}
+				} else {
+					st.ghost[gname] = SV{T: ex.FreshVar("g"+gname, SInt), Ty: tInt}
+				}
 			}
 		}
 	}
@@ -302,6 +306,17 @@ func (ex *Ex) callByContract(fr *Frame, st *State, ins ssa.Instruction, callee *
 		if err != nil {
 			unsupp("contract of %s: %v", cname, err)
 		}
+		st.Assume(t)
+	}
+	for _, as := range ctr.Assumes {
+		if !ex.activeProps(as.Props) {
+			continue
+		}
+		t, err := ex.trBool(envPost, as.E)
+		if err != nil {
+			unsupp("contract of %s: %v", cname, err)
+		}
+		ex.note("ASSUMED (unverified clause of " + cname + "): " + as.Text)
 		st.Assume(t)
 	}
 	// type invariants of pointer results
@@ -494,6 +509,15 @@ func (ex *Ex) invokeByContract(fr *Frame, st *State, ins ssa.Instruction, ctr *C
 	ex.flushFacts(st)
 	env.results = svs
 	env.resNames = resultNames(sig)
+	for i, sv := range svs {
+		env.vars[fmt.Sprintf("result%d", i)] = sv
+		if i < len(env.resNames) && env.resNames[i] != "" && env.resNames[i] != "_" {
+			env.vars[env.resNames[i]] = sv
+		}
+	}
+	if len(svs) == 1 {
+		env.vars["result"] = svs[0]
+	}
 	for _, en := range ctr.Ensures {
 		if !ex.activeProps(en.Props) {
 			continue
